@@ -39,6 +39,7 @@ type runResult struct {
 	Trace       []string            `json:"trace,omitempty"`
 	Steps       int                 `json:"steps"`
 	Overrun     int                 `json:"overrun"`
+	LogLines    []string            `json:"-"`
 }
 
 type opts struct {
@@ -67,6 +68,7 @@ func runOne(e engine.Engine, c *simrt.Chooser, param int, o opts, stats *engine.
 		Fingerprint: log.Fingerprint(), Sig: log.Signature() + ctx.SigExtra, NonTrivial: ctx.NonTrivial, Steps: log.N, Overrun: c.Overrun}
 	if keep {
 		res.Trace = ctx.Trace
+		res.LogLines = log.Lines
 	}
 	return res
 }
@@ -83,6 +85,8 @@ func main() {
 		os.Exit(cmdWorker(os.Args[2:]))
 	case "replay":
 		os.Exit(cmdReplay(os.Args[2:]))
+	case "fingerprints":
+		os.Exit(cmdFingerprints(os.Args[2:]))
 	case "engines":
 		fmt.Println(strings.Join(engine.Names(), "\n"))
 	default:
@@ -672,4 +676,47 @@ func shrink(choices []int, pred func([]int) (*runResult, bool), budget int) []in
 		}
 	}
 	return cur
+}
+
+// cmdFingerprints prints "<run index> <event-log fingerprint> <violation keys>"
+// for a range of runs: the determinism self-test diffs this output across
+// processes, GOMAXPROCS values and binaries.
+func cmdFingerprints(args []string) int {
+	fs := flag.NewFlagSet("fingerprints", flag.ExitOnError)
+	eng := fs.String("engine", "", "")
+	seed := fs.Uint64("seed", 1, "")
+	from := fs.Uint64("from", 0, "")
+	count := fs.Uint64("count", 64, "")
+	tier := fs.String("tier", "quick", "")
+	known := fs.String("known", "", "")
+	shuffle := fs.Bool("reverse", false, "run the indices in reverse order (independence of runs)")
+	fs.Parse(args)
+	e := engine.Get(*eng)
+	if e == nil {
+		return 2
+	}
+	o := opts{tier: *tier, race: simrt.RaceBuild, known: engine.LoadKnown(*known)}
+	lines := make([]string, *count)
+	for i := uint64(0); i < *count; i++ {
+		j := i
+		if *shuffle {
+			j = *count - 1 - i
+		}
+		c := simrt.NewSearchChooser(*seed, *from+j)
+		res := runOne(e, c, -1, o, engine.NewStats(), os.Getenv("VERIF_DUMPLOG") == fmt.Sprint(*from+j))
+		if os.Getenv("VERIF_DUMPLOG") == fmt.Sprint(*from+j) {
+			for _, l := range res.LogLines {
+				fmt.Fprintln(os.Stderr, l)
+			}
+		}
+		var keys []string
+		for _, v := range res.Violations {
+			keys = append(keys, v.Key())
+		}
+		lines[j] = fmt.Sprintf("%d %s %d %v", *from+j, res.Fingerprint, res.Steps, keys)
+	}
+	for _, l := range lines {
+		fmt.Println(l)
+	}
+	return 0
 }
